@@ -412,10 +412,17 @@ def extract_fn(relpath, qual, ann):
         ob = old.strip().encode()
         body = src[s0:e0]
         cnt = body.count(ob)
-        if cnt != 1:
+        every = rule.endswith(" all")
+        rule = rule.split()[0]
+        if cnt < 1 or (cnt != 1 and not every):
             raise Inconclusive(f"anchor lost: rewrite {rule} snippet found {cnt} times in {qual}: {old.strip()[:60]!r}")
-        p = s0 + body.find(ob)
-        ed.add(p, p + len(ob), new.strip(), rule, "catalogue desugaring: " + old.strip()[:60].replace("\n", " "))
+        pos = 0
+        while True:
+            q = body.find(ob, pos)
+            if q < 0:
+                break
+            ed.add(s0 + q, s0 + q + len(ob), new.strip(), rule, "catalogue desugaring: " + old.strip()[:60].replace("\n", " "))
+            pos = q + len(ob)
     text, segs = ed.render()
     if re.match(r"\s*pub\(crate\)", text):
         text = text.replace("pub(crate)", "pub", 1)
